@@ -380,6 +380,9 @@ inductive Phase where
   | running       -- initialised, ready
   | aborted       -- an error is pending after a complete initialisation (not ready; the stop follows)
   | failed        -- start-up failed (not ready; the stop follows)
+  | stopping      -- states and stop time are saved, the (asynchronous) clean-up is in progress; blocks still
+                  -- handle events, FSM timers still fire (`FSM.stop()` comes after the asynchronous clean-up)
+  | stoppingF     -- clean-up after a failed start-up
   | stopped
   deriving DecidableEq, Repr, Inhabited
 
@@ -463,7 +466,7 @@ def Circ.ready (c : Circ) : Bool := c.phase == .running
 
 /-- `AddonPersistence.event` of block `i` at the current instant -/
 def Circ.event (c : Circ) (cal : Val → Option Bool) (i : Nat) (ev : Ev) : Option (Circ × Res) :=
-  if c.phase != .running && c.phase != .aborted then none else
+  if c.phase != .running && c.phase != .aborted && c.phase != .stopping then none else
   match c.blocks[i]? with
   | none => none
   | some b =>
@@ -475,7 +478,8 @@ def Circ.event (c : Circ) (cal : Val → Option Bool) (i : Nat) (ev : Ev) : Opti
                      store := if b.persistent && b.sync then saveBlk c.store b' else c.store }, r)
     | .handlerError =>
       -- `abort()`: the circuit is not ready any more, hence the persistence is switched off
-      some ({ c with blocks := c.blocks.set i { b with dyn := d, persistent := false }, phase := .aborted }, r)
+      some ({ c with blocks := c.blocks.set i { b with dyn := d, persistent := false },
+                     phase := if c.phase == .running then .aborted else c.phase }, r)
     | _ =>
       -- exception without abort: persistence is switched off only if the circuit is not ready
       some ({ c with blocks := c.blocks.set i { b with dyn := d, persistent := b.persistent && c.ready } }, r)
@@ -487,8 +491,9 @@ def tevEv : TEv → Ev
 /-- the active timer of block `i` fires (`_timer_expired`): the clock is at its expiry, the timer
     is no longer active, the timed event is delivered through `event` -/
 def Circ.fire (c : Circ) (cal : Val → Option Bool) (i : Nat) : Option (Circ × Res) :=
-  -- (a timer that is due in the same batch of callbacks still fires after an abort)
-  if c.phase != .running && c.phase != .aborted then none else
+  -- (a timer that is due in the same batch of callbacks still fires after an abort; timers go on
+  --  firing during the asynchronous clean-up)
+  if c.phase != .running && c.phase != .aborted && c.phase != .stopping then none else
   match c.blocks[i]? with
   | none => none
   | some b =>
@@ -510,15 +515,28 @@ def nextTimer (bs : List Blk) : Option Time :=
 def Circ.advance (c : Circ) (t : Time) : Option Circ :=
   if t < c.now then none else
   match nextTimer c.blocks with
-  | some w => if c.phase == .running && w ≤ t then none else some { c with now := t }
+  | some w => if (c.phase == .running || c.phase == .stopping) && w ≤ t then none else some { c with now := t }
   | none => some { c with now := t }
 
-/-- the final part of `run_forever`: save everything and the stop time iff `start_ok`, stop the blocks -/
-def Circ.stop (c : Circ) (t : Time) : Circ :=
-  if c.phase == .idle || c.phase == .stopped then c else
-  let store := if c.startOk then (saveAll c.store c.blocks).set stopKey (.ts t) else c.store
-  { c with now := t, phase := .stopped, store := store,
-           blocks := c.blocks.map fun b => { b with dyn := { b.dyn with timer := none } } }
+/-- the final part of `run_forever` up to its first `await`: every persistent block and the stop time are
+    saved iff `start_ok`; nothing of this depends on how the clean-up (`_stop_sblocks`) goes on -/
+def Circ.stopBegin (c : Circ) (t : Time) : Circ :=
+  if c.phase != .running && c.phase != .aborted && c.phase != .failed then c else
+  { c with now := t, phase := if c.phase == .failed then .stoppingF else .stopping,
+           store := if c.startOk then (saveAll c.store c.blocks).set stopKey (.ts t) else c.store }
+
+/-- the end of the clean-up at time `t`.  `complete = true`: `_stop_sblocks` ran to its end, every block got
+    its `stop()` (FSM timers cancelled).  `complete = false`: the simulation task was cancelled while it
+    awaited an asynchronous clean-up (a cancelled `shutdown()`, a second Ctrl-C): the remaining blocks are
+    not stopped.  The storage is not touched either way. -/
+def Circ.stopEnd (c : Circ) (t : Time) (complete : Bool) : Circ :=
+  if c.phase != .stopping && c.phase != .stoppingF then c else
+  { c with now := t, phase := .stopped,
+           blocks := if complete then c.blocks.map fun b => { b with dyn := { b.dyn with timer := none } }
+                     else c.blocks }
+
+/-- a stop whose clean-up takes no time -/
+def Circ.stop (c : Circ) (t : Time) : Circ := (c.stopBegin t).stopEnd t true
 
 /-! ## histories -/
 
